@@ -522,6 +522,18 @@ func judge(r *mon.Rec, a *acc, v []byte, via string) {
 	r.Current(map[string]any{"accessor": a.name, "value": mon.HexBytes(v), "via": via})
 	r.Eval(1)
 	p := &dhcpv4.DHCPv4{Options: dhcpv4.Options{}}
+	fillHeader := func(q *dhcpv4.DHCPv4) {
+		// "for any packet": the header fields hold values of their own (a BOOTP server name and boot file, addresses);
+		// an option accessor reads the option, whatever the header says
+		if (len(v)+int(a.code))%3 != 0 {
+			q.OpCode, q.HWType, q.HopCount, q.NumSeconds, q.Flags = dhcpv4.OpcodeBootReply, 1, 2, 77, 0x8000
+			q.TransactionID = dhcpv4.TransactionID{9, 8, 7, 6}
+			q.ClientIPAddr, q.YourIPAddr, q.ServerIPAddr, q.GatewayIPAddr = net.IP{10, 1, 1, 1}, net.IP{10, 2, 2, 2}, net.IP{10, 3, 3, 3}, net.IP{10, 4, 4, 4}
+			q.ClientHWAddr = net.HardwareAddr{2, 0, 0x5e, 1, 2, 3}
+			q.ServerHostName, q.BootFileName = "sname-field.example", "file-field/pxelinux.0"
+		}
+	}
+	fillHeader(p)
 	rp := replay{a.name, mon.Hex(v), via}
 	want := a.ref(v)
 	var got string
@@ -537,6 +549,7 @@ func judge(r *mon.Rec, a *acc, v []byte, via string) {
 			p.Options[a.code] = []byte{}
 		case "wire":
 			src := &dhcpv4.DHCPv4{Options: dhcpv4.Options{a.code: v}, ClientHWAddr: make([]byte, 6)}
+			fillHeader(src)
 			q, err := dhcpv4.FromBytes(src.ToBytes())
 			if err != nil {
 				panic("encode/decode failed: " + err.Error())
@@ -937,6 +950,15 @@ func setGet(r *mon.Rec, idx int) {
 		for i := 0; i < 1+rng.IntN(3); i++ {
 			names = append(names, rstr(rng, 8)+"x."+rstr(rng, 5)+"y")
 			uc = append(uc, rstr(rng, 9)+"u")
+		}
+		if rng.IntN(2) == 0 {
+			// the search lists sites really use: domains and their sub-domains, repeated parents, shared suffixes of
+			// several levels (where a compressing encoder has its choices)
+			base := rstr(rng, 6) + "c." + rstr(rng, 3) + "m"
+			names = []string{base, "corp." + base, "eng.corp." + base, base, "eng.corp." + base, "lab.eng.corp." + base, rstr(rng, 4) + "z." + base}[:2+rng.IntN(6)]
+			if rng.IntN(2) == 0 {
+				rng.Shuffle(len(names), func(i, j int) { names[i], names[j] = names[j], names[i] })
+			}
 		}
 		sub := []byte(rstr(rng, 12))
 		name = "OptDomainSearch+OptRFC3004UserClass+OptRelayAgentInfo"
